@@ -1,5 +1,5 @@
 //@unit path
-//@props C01
+//@props C01 C08
 // U-path: totality of the SVG path-data scanner (src/path.rs): every scanner step that returns Ok
 // consumed at least one character, so the `evaluate` loop terminates; no unwrap/expect can panic.
 //@assume str::parse::<f32>("") is an error (R-parse: `s.parse()` replaced by parse_r32 with that contract)
@@ -48,6 +48,8 @@ pub trait PathSyntax: Sized {
     spec fn len(&self) -> nat;
     /// is the current character a command letter (a function of the scanner state)
     spec fn cmd_here(&self) -> bool;
+    /// the character under the cursor (meaningful while idx() < len())
+    spec fn cur(&self) -> char;
 
 //@item src/path.rs :: trait PathSyntax :: fn at_command
 //@ ensures
@@ -57,6 +59,7 @@ pub trait PathSyntax: Sized {
 //@item src/path.rs :: trait PathSyntax :: fn current
 //@ ensures
 //@ - r is Some <==> self.idx() < self.len()
+//@ - r is Some ==> r->Some_0 == self.cur()
 //@end
 //@item src/path.rs :: trait PathSyntax :: fn advance
 //@ requires
@@ -118,6 +121,7 @@ pub trait PathSyntax: Sized {
 //@item src/path.rs :: trait PathSyntax :: fn read_command
 //@ ensures
 //@ - r is Ok ==> final(self).idx() > old(self).idx()     @@C01.path.cmd_progress
+//@ - r is Ok ==> r->Ok_0 == old(self).cur() && old(self).cmd_here() && old(self).idx() < old(self).len()
 //@ - final(self).idx() >= old(self).idx()
 //@ - final(self).len() == old(self).len()
 //@end
@@ -127,6 +131,7 @@ impl PathSyntax for SvgPathSyntax {
     open spec fn idx(&self) -> nat { self.index as nat }
     open spec fn len(&self) -> nat { self.data@.len() }
     open spec fn cmd_here(&self) -> bool { contains_spec("MmLlHhVvZzCcSsQqTtAa", self.data@[self.index as int]) }
+    open spec fn cur(&self) -> char { self.data@[self.index as int] }
 
 //@item src/path.rs :: impl PathSyntax for SvgPathSyntax :: fn at_command
 //@end
@@ -145,6 +150,10 @@ impl PathSyntax for SvgPathSyntax {
 impl PathParser {
     /// data-structure invariant between instructions: closepath is never the remembered command
     /// (it takes no arguments, so it must not be implicitly repeated)
+    /// this instruction reads a command letter, and it is one of the two given (lower / upper case)
+    pub open spec fn explicit_cmd(p: PathParser, a: char, b: char) -> bool {
+        (p.command is None || p.tokens.cmd_here()) && p.tokens.idx() < p.tokens.len() && (p.tokens.cur() == a || p.tokens.cur() == b)
+    }
     pub open spec fn cmd_ok(&self) -> bool {
         self.command != Some('z') && self.command != Some('Z')
     }
@@ -159,6 +168,11 @@ impl PathParser {
 //@ ensures
 //@ - final(self).tokens == old(self).tokens
 //@ - final(self).command == old(self).command
+//@ - final(self).position == Some(pos)
+//@ - final(self).start_pos == (if old(self).start_pos is None { Some(pos) } else { old(self).start_pos })
+//@ - old(self).position is None ==> val(final(self).min_x) == val(pos.0) && val(final(self).max_x) == val(pos.0) && val(final(self).min_y) == val(pos.1) && val(final(self).max_y) == val(pos.1)
+//@ - old(self).position is Some ==> val(final(self).min_x) == rmin(val(old(self).min_x), val(pos.0)) && val(final(self).max_x) == rmax(val(old(self).max_x), val(pos.0))
+//@       && val(final(self).min_y) == rmin(val(old(self).min_y), val(pos.1)) && val(final(self).max_y) == rmax(val(old(self).max_y), val(pos.1))     @@C08.path.extent_covers_every_point
 //@end
 
 //@item src/path.rs :: impl PathParser :: fn get_bbox
@@ -169,6 +183,9 @@ impl PathParser {
 //@ - old(self).cmd_ok()
 //@ ensures
 //@ - r is Ok ==> final(self).cmd_ok()     @@C01.path.cmd_invariant
+//@ - r is Ok && Self::explicit_cmd(*old(self), 'z', 'Z') ==> old(self).start_pos is Some && final(self).position == old(self).start_pos     @@C08.path.closepath_returns_to_subpath_start
+//@ - r is Ok && Self::explicit_cmd(*old(self), 'm', 'M') ==> final(self).position is Some && final(self).start_pos == final(self).position     @@C08.path.moveto_starts_subpath
+//@ - r is Ok && !Self::explicit_cmd(*old(self), 'm', 'M') && old(self).start_pos is Some ==> final(self).start_pos == old(self).start_pos     @@C08.path.subpath_start_kept
 //@ - r is Ok ==> final(self).tokens.idx() > old(self).tokens.idx()     @@C01.path.progress
 //@ - final(self).tokens.len() == old(self).tokens.len()
 //@end
@@ -207,6 +224,7 @@ impl PathSyntax for BearingPathSyntax {
     open spec fn idx(&self) -> nat { self.index as nat }
     open spec fn len(&self) -> nat { self.data@.len() }
     open spec fn cmd_here(&self) -> bool { contains_spec("MmBbLlHhVvZzCcSsQqTtAa", self.data@[self.index as int]) }
+    open spec fn cur(&self) -> char { self.data@[self.index as int] }
 
 //@item src/bearing.rs :: impl PathSyntax for BearingPathSyntax :: fn at_command
 //@end
